@@ -37,9 +37,9 @@ package creds
 //@   at call (creds.Creds).buffer:1 assert arg0__ == input && arg1__ == h.protectProtocol
 //@ func github.com/git-lfs/git-lfs/v3/subprocess.ExecCommand
 //@   assumed
-//@   props C17
+//@   props C17 C11 C20
 //@   modifies fresh
-//@   ensures result1 == nil ==> result0 != nil && result0.Cmd != nil && isfresh(result0)
+//@   ensures result1 == nil ==> result0 != nil && result0.Cmd != nil && isfresh(result0) && isfresh(result0.Cmd)
 //@ func (*github.com/git-lfs/git-lfs/v3/subprocess.Cmd).Start
 //@   assumed
 //@   props C17
